@@ -45,10 +45,11 @@ def cases(tier, seed, info):
 def names_for(rng, eids):
     out = []
     for k, e in enumerate(eids):
-        style = rng.randrange(8)
+        style = rng.randrange(12)
         base = '%08X' % e
         nm = ['2023%04d_%s' % (rng.randrange(10000), base), base, 'a_' + base, 'B_' + base, base + '.pel',
-              'Z' + base + '.PEL', '.' + base, base.lower() + '.pel'][style]
+              'Z' + base + '.PEL', '.' + base, base.lower() + '.pel', 'x.' + base + '.pel', base + '.pel.bak',
+              base + '.', 'a.b.' + base][style]
         out.append(nm)
     return out
 
@@ -86,7 +87,7 @@ def run_case(case):
     o = dict(every=sw[0], sv=sw[1], nsv=sw[2], hid=sw[3], term=sw[4], only=sw[5],
              sevs=sorted(rng.sample(GROUPS, rng.choice([0, 0, 1, 2, 3]))), lookup='none')
     rev = rng.random() < .4
-    ext = rng.choice([None, None, '.pel', '.PEL', '.txt'])
+    ext = rng.choice([None, None, '.pel', '.PEL', '.txt', '.bak', '.', '.%08X' % eids[0] if eids else '.x'])
     head, tail = argv_opts(o, rev, ext)
     rec = dict(family='C08', shape_ok=True, files=fattrs, o=o, rev=rev, ext=project.cp(ext) if ext else [],
                count=-1, list=[], all=[], hexlist=[], hexall=[], exits=[],
